@@ -1,4 +1,5 @@
 import Dashu.Proofs.NT.GcdExt
+import Dashu.Proofs.NT.BinGcd
 import Dashu.Proofs.NT.Root
 import Dashu.Proofs.NT.Log
 import Dashu.Proofs.NT.Log2Table
@@ -8,21 +9,25 @@ import Dashu.Proofs.NT.Log2Table
 
   Property theorems only.  Statements quantify over all word sizes (`0 < W`, and `W` even where the
   square-root normalisation needs it), all operands and all `n ≥ 1`; nothing is bounded.
-  Frontier kernels enter through their contracts (`LehmerExtContract`, `SqrtKernelContract`,
-  `hprim`); the kernels the driver executes are shown to meet them where they are Lean definitions.
+  Frontier kernels enter through their contracts (`LehmerExtContract`, `SqrtKernelContract`); the kernels the driver executes are shown to meet them where they are Lean definitions.
 -/
 namespace Dashu.Props.C12
 open Dashu.Model Dashu.Model.NT
 
 -- ==================================================================== gcd
 
+/-- the primitive `gcd` of `base/src/ring/gcd.rs` (u8 … u128): common power of two, the one-division
+    shortcut for operands of very different size and the binary subtract-and-shift loop compute
+    `Nat.gcd`; `(0, 0)` panics -/
+theorem gcd_prim_spec (a b : Nat) :
+    gcdPrim a b = if a = 0 ∧ b = 0 then .error .gcdZeroZero else .ok (Nat.gcd a b) :=
+  gcdPrim_spec a b
+
 /-- `gcd` over every size class (inline/heap mixes, one operand zero, equal operands):
-    `Nat.gcd`, panicking exactly for `(0, 0)`.  `hprim` is the contract of the primitive binary gcd. -/
-theorem gcd_spec (W : Nat)
-    (hprim : ∀ x y, gcdPrim x y = if x = 0 ∧ y = 0 then .error .gcdZeroZero else .ok (Nat.gcd x y))
-    (a b : Nat) :
+    `Nat.gcd`, panicking exactly for `(0, 0)` -/
+theorem gcd_spec (W : Nat) (a b : Nat) :
     gcdRepr W a b = if a = 0 ∧ b = 0 then .error .gcdZeroZero else .ok (Nat.gcd a b) :=
-  gcdRepr_spec W hprim a b
+  gcdRepr_spec W gcdPrim_spec a b
 
 /-- the primitive Euclid loop with cofactors (`unchecked_gcd_ext` + the `ExtendedGcd` wrapper) -/
 theorem gcd_ext_prim_spec (a b : Nat) :
